@@ -234,6 +234,10 @@ def gen_prog(rng):
         else:
             feats.add("sub")
             body.append(("subcircuit_block", rng.choice(["", 3, 0, 1])) + block("sequential_block", 1, False, True)[1:])
+    if rng.random() < 0.04:
+        # nothing to schedule: no statement at all, or empty blocks only -- the header is still the header
+        body = rng.choice([[], [("sequential_block",)], [("parallel_block", ("sequential_block",), ("sequential_block",))], [("loop", 2, ("sequential_block",))]])
+        feats.add("nothing-to-schedule")
     hdr = [("let", "n", 2), ("let", "z", 0), ("register", "q", 3), ("map", "a", "q", 0, 2, 1)]
     r = rng.random()
     if r < 0.3:
